@@ -1,0 +1,18 @@
+// SPDX-License-Identifier: Apache-2.0 OR MIT
+
+//! Verification hooks (only with `--cfg fast_tlsh_verif`).
+//!
+//! This module re-exports crate-internal entry points for an external
+//! verification harness.  Nothing here is compiled (and nothing in the crate
+//! changes) unless the `fast_tlsh_verif` cfg is set.
+
+#![cfg(fast_tlsh_verif)]
+
+pub use crate::compare::dist_body::verif::{
+    distance_12_by, distance_32_by, distance_64_by, VerifDistanceBackend,
+};
+pub use crate::generate::bucket_aggregation::verif::{
+    aggregate_128_by, aggregate_256_by, aggregate_48_by, VerifAggregationBackend,
+};
+pub use crate::generate::verif::{VerifGeneratorHook, VerifGeneratorState};
+pub use crate::pearson::{tlsh_b_mapping_256, tlsh_b_mapping_48};
